@@ -112,6 +112,14 @@ class SimParallel:
                 raise RuntimeError("simulated worker failure in Parallel call %d task %d" % (site, idx))
             mark = len(sim.zombies)
             sim.in_process_task += 1
+            if getattr(sim, "pool_size", None) != k:
+                # loky resizes its reusable executor when n_jobs changes between calls: workers are
+                # replaced, and with them the module state they had accumulated
+                if getattr(sim, "pool_size", None) is not None and getattr(sim, "worker_states", None):
+                    for wk in list(sim.worker_states):
+                        if sim.choice(("resize", site), 2):
+                            del sim.worker_states[wk]
+                sim.pool_size = k
             worker = sim.choice(("worker", site), min(k, n))
             try:
                 # the task runs on the module-level state of its worker process, not the parent's
